@@ -1,7 +1,7 @@
 CONSTANTS
   NK = 5
   NV = 1
-  MaxLen = 6
+  MaxLen = 7
   Reads <- ReadsNone
   Lims <- Lims0
   Grow = 0
